@@ -22,7 +22,7 @@ var c12Mixed = []rune("aé€😀bñ漢𝄞cßд🙂zあ\u0301q")
 var c12Ascii = []rune("abcdefghijklmnop")
 
 var c12Subjects = []string{"array", "objarray", "nested", "ascii", "mixed", "number", "object", "null"}
-var c12Forms = []string{"field", "current", "dot-k", "index0", "pipe0", "flatten", "paren", "then-reverse", "then-step2", "multi"}
+var c12Forms = []string{"field", "current", "dot-k", "index0", "pipe0", "flatten", "paren", "then-reverse", "then-step2", "multi", "in-wildcard", "in-flatten", "in-filter", "in-slice", "in-wildcard-nulls"}
 
 func init() {
 	core.Register(&core.Check{
@@ -353,6 +353,53 @@ func c12Build(p map[string]any) (expr string, doc any, exp expectation, abstain 
 				// a bare array slice is a projection: nulls are omitted (there are none here)
 				want = sliced
 			}
+		}
+	case "in-wildcard", "in-flatten", "in-filter", "in-slice":
+		// the slice is the first step of another projection's right-hand side and is followed by a field: it starts a
+		// projection of its own over every element the outer projection hands it
+		pre := map[string]string{"in-wildcard": "w[*]", "in-flatten": "w[]", "in-filter": "w[?`true`]", "in-slice": "w[0:]"}[form]
+		expr = pre + sl + ".k"
+		if form == "in-flatten" {
+			doc = map[string]any{"w": []any{[]any{subject}, []any{subject}}}
+		} else {
+			doc = map[string]any{"w": []any{subject, subject}}
+		}
+		if isArray {
+			inner := []any{}
+			if subj == "objarray" {
+				for _, i := range idx {
+					inner = append(inner, core.Norm(int64(i)))
+				}
+			}
+			want = []any{inner, inner}
+		} else {
+			want = []any{} // the slice of a string is a string, of anything else null: no member k, dropped
+		}
+	case "in-wildcard-nulls":
+		// nothing follows the inner slice, and every other element of the array is null: the inner projection omits them
+		expr = "w[*]" + sl
+		switch {
+		case isArray:
+			holes := make([]any, n)
+			inner := []any{}
+			for i := range holes {
+				if i%2 == 0 {
+					holes[i] = rawElem(i)
+				}
+			}
+			for _, i := range idx {
+				if i%2 == 0 {
+					inner = append(inner, elem(i))
+				}
+			}
+			doc = map[string]any{"w": []any{holes}}
+			want = []any{inner}
+		case isString:
+			doc = map[string]any{"w": []any{subject}}
+			want = []any{sliced}
+		default:
+			doc = map[string]any{"w": []any{subject}}
+			want = []any{}
 		}
 	case "flatten":
 		expr, doc = "x"+sl+"[]", map[string]any{"x": subject}
